@@ -37,8 +37,11 @@ def splitLines : Bytes → List Bytes
       | l :: ls => (c :: l) :: ls
       | [] => [[c]]
 
-def startsInclude (l : Bytes) : Bool :=
-  l.take 8 == includeLit && (match l.drop 8 with | c :: _ => isBlank c | [] => false)
+def headBlank : Bytes → Bool
+  | c :: _ => isBlank c
+  | [] => false
+
+def startsInclude (l : Bytes) : Bool := l.take 8 == includeLit && headBlank (l.drop 8)
 
 /-- items of one line and whether the line was well-formed (`false`: syntax error after the
     items listed).  `fuel` bounds the number of `[section]`s on one line. -/
@@ -72,9 +75,12 @@ def linesItems : List Bytes → List Item × Bool
     let r := lineItems (l.length + 1) l
     if r.2 then let r2 := linesItems ls; (r.1 ++ r2.1, r2.2) else (r.1, false)
 
-/-- items of a file's content, and whether the whole text is well-formed -/
-def fileItems (content : Bytes) : List Item × Bool :=
-  linesItems (splitLines (content.takeWhile (· != 0)))
+/-- the lines of a file's content -/
+def fileLines (content : Bytes) : List Bytes := splitLines (content.takeWhile (· != 0))
+
+/-- items of a file's content (up to the first malformed line), and whether the whole text is
+    well-formed -/
+def fileItems (content : Bytes) : List Item × Bool := linesItems (fileLines content)
 
 variable {σ : Type}
 
@@ -94,6 +100,17 @@ def runItems (incl : Bytes → σ → σ × Option Err) (h : σ → Event → σ
     | (st', some e) => (st', some .incl, some e)
     | (st', none) => runItems incl h level is st'
 
+/-- deliver the lines of one file, in order, up to the first error -/
+def runLines (incl : Bytes → σ → σ × Option Err) (h : σ → Event → σ × Bool) (level : Nat) :
+    List Bytes → σ → σ × Option Err × Option Err
+  | [], st => (st, none, none)
+  | l :: ls, st =>
+    match runItems incl h level (lineItems (l.length + 1) l).1 st with
+    | (st', none, _) =>
+      if (lineItems (l.length + 1) l).2 then runLines incl h level ls st'
+      else (st', some .syntax, some .syntax)
+    | r => r
+
 /-- the spec of `parse_ini_file_internal(name, h, arg, level)` -/
 def specFile (fs : Bytes → Option Bytes) (h : σ → Event → σ × Bool) :
     Nat → Bytes → Nat → σ → σ × Option Err × Option Err
@@ -102,13 +119,10 @@ def specFile (fs : Bytes → Option Bytes) (h : σ → Event → σ × Bool) :
     match fs name with
     | none => (st, some .noFile, some .noFile)
     | some content =>
-      let (items, wf) := fileItems content
-      match runItems (fun nm s =>
+      runLines (fun nm s =>
                 let r := specFile fs h depth nm (level + 1) s
                 (r.1, match r.2.1 with | none => none | some _ => r.2.2))
-              h level items st with
-      | (st', none, _) => if wf then (st', none, none) else (st', some .syntax, some .syntax)
-      | r => r
+              h level (fileLines content) st
 
 def specParse (fs : Bytes → Option Bytes) (h : σ → Event → σ × Bool) (name : Bytes) (st : σ) :
     σ × Option Err × Option Err :=
